@@ -46,6 +46,8 @@ SCOPE = {"quick": "pivot sequences: all, universes n<=4.  all 700 datasets n<=3,
                      "elements, m<=2 (20 072) x 7 schemes; identical rankings n<=5; 3000 sampled datasets n<=5, m<=5 x 25 "
                      "schemes; 2000 restriction datasets n<=5 x 25 schemes; 40 000 direct _where_should_it_be inputs"}
 CHUNK = 1
+# every 6th case is run a second time with every algorithm object used before on related inputs (bounded/algs.py: warm)
+WARM_EVERY = {"quick": 6, "thorough": 6}
 # every 8th case is run a second time with its datasets reached through a history (vlib.t2run._with_histories)
 VIA_EVERY = {"quick": 8, "thorough": 8}
 TIMEOUT = 900
